@@ -20,6 +20,8 @@ open GluonModel.Surf GluonModel.SurfTy
 inductive MTy where
   | plain (t : STy)
   | io (a : STy)
+  /-- `forall v. IO a` — an `IO` type under a quantifier (e.g. `wrap (\x -> 1) : forall a. IO (a -> Int)`) -/
+  | ioForall (a : STy)
   deriving Repr, Inhabited
 
 /-- the value a module body evaluates to: an ordinary value, or an `IO` action (which yields
@@ -35,18 +37,23 @@ structure Global where
 
 def isIO : MTy → Bool
   | .io _ => true
+  | .ioForall _ => true
   | .plain _ => false
 
-/-- compiler_pipeline.rs:1134 `run_io` -/
-def runIo (g : Global) : Global :=
+/-- compiler_pipeline.rs:1134 `run_io`. `none` = the `ice!` of line 1163: `check_signature`
+    (:1146) instantiates the quantifier and succeeds, the action is executed, and then
+    `match **remove_aliases_cow(typ) { Type::App(_, arg) => arg[0], _ => ice!(…) }` (:1160-1164)
+    meets the `Forall` node (defect D18). -/
+def runIo (g : Global) : Option Global :=
   match g.typ, g.value with
-  | .io a, .action r => ⟨.plain a, .val r⟩
-  | .io a, .val v => ⟨.io a, .val v⟩   -- (not reachable for well-shaped globals)
-  | .plain t, v => ⟨.plain t, v⟩        -- `check_signature` fails: unchanged
+  | .io a, .action r => some ⟨.plain a, .val r⟩
+  | .ioForall _, _ => none
+  | .io a, .val v => some ⟨.io a, .val v⟩   -- (not reachable for well-shaped globals)
+  | .plain t, v => some ⟨.plain t, v⟩        -- `check_signature` fails: unchanged
 
 /-- query.rs:707 `global_inner`: what is stored for the module -/
-def globalInner (runIoSetting : Bool) (g : Global) : Global :=
-  if runIoSetting then runIo g else g
+def globalInner (runIoSetting : Bool) (g : Global) : Option Global :=
+  if runIoSetting then runIo g else some g
 
 /-- query.rs `module_type`: what `import! m` is typed with — the checker's type of the source -/
 def importerType (g : Global) : MTy := g.typ
@@ -55,6 +62,7 @@ def importerType (g : Global) : MTy := g.typ
 def ShapeM (D : Decls) : MVal → MTy → Prop
   | .val v, .plain t => HasShape D v t
   | .action r, .io a => HasShape D r a
+  | .action r, .ioForall a => HasShape D r a
   | _, _ => False
 
 /-- what the importer observes when it *uses* the global at the importer's type under the
@@ -72,6 +80,10 @@ def useImported (runIoSetting : Bool) (stored : Global) (importer : MTy) : Use :
   | true, .io _, .val (.str _) => .wrong
   | true, .io _, .val (.data _ _) => .wrong
   | true, .io _, .val (.arr _) => .wrong
+  | true, .ioForall _, .val (.int _) => .wrong
+  | true, .ioForall _, .val (.str _) => .wrong
+  | true, .ioForall _, .val (.data _ _) => .wrong
+  | true, .ioForall _, .val (.arr _) => .wrong
   | _, _, _ => .ok
 
 end GluonModel.ModGlobal
